@@ -216,6 +216,21 @@ def body_hist(E, ext, eng, pre_on, b1, b2, b3, w1, w2, w3,
         return True
 
 
+def body_alias(E, v1, v2, w1, disk):
+    """the harvested dataset is a copy: editing the source object in place afterwards must not change it"""
+    with E() as env:
+        path = (env.parent + "/data.h5") if cbool(disk) else None
+        h = Harvester(Runner(lambda a: 0, var_names="x"), data_name=path)
+        src = mk_ds(env, {1: v1, 2: v2})
+        h.add_ds(src)
+        # in-place edit of the source's data buffer
+        if env.mode == "sym":
+            src["x"].set_cell((1,), w1)
+        else:
+            src["x"].values[0] = float(w1)
+        return same_cells(cells_of(env, h.full_ds), {(1,): v1, (2,): v2})
+
+
 def body_reshape(E, ext, v1, v2, v3, fresh):
     """add, expand_dims, add along the new dimension, drop_sel, new session"""
     name = "data.h5" if cbool(ext) else "data"
@@ -309,6 +324,16 @@ CONDS = [
               fixed=dict(steps=1), timeout=300,
               bounds="arbitrary pre-state on {1,2}; one operation with sync=False on {2,3}: memory follows the "
                      "policy, disk is untouched"),
+    make_cond(_G, "holes", body_hist, _SIG,
+              [_RANGES, "ext and eng == 0 and pre_on and b3 == 0 and 1 <= b1 and 1 <= b2",
+               "0 <= op <= 2 and sync and c3 == 0 and 1 <= c1 and 1 <= c2",
+               "op2 == 0 and pol2 == 0 and not fresh2 and d1 == 0 and d2 == 0 and d3 == 0"],
+              fixed=dict(steps=1), timeout=400,
+              bounds="pre-state on labels {1,2} with NaN holes or values; one operation on the SAME labels (no new "
+                     "coordinate) with NaN or values, any policy: holes are filled, values follow the policy"),
+    make_cond(_G, "alias", body_alias, "v1:int v2:int w1:int disk:bool", ["w1 != v1"], timeout=120,
+              bounds="first add_ds into an empty harvester (memory-only or synced) followed by an in-place edit of "
+                     "the source dataset's data: the harvested values do not change"),
     make_cond(_G, "two_live", body_two_live, "o1:bool o2:bool o3:bool pol3:int v1:int v2:int v3:int",
               ["0 <= pol3 <= 2"], timeout=300,
               bounds="three synced add_ds steps on labels 1, 2, 1 issued through either of two simultaneously live "
@@ -316,15 +341,15 @@ CONDS = [
                      "disk and the acting object's memory follow the oracle"),
     make_cond(_G, "reshape", body_reshape, "ext:bool v1:int v2:int v3:int fresh:bool", [], timeout=120,
               bounds="add_ds, expand_dims, optional new session, drop_sel: memory, disk and a new session agree"),
-] + split_conds(
+] + [c for pol in (0, 1, 2) for c in split_conds(
     # (D) one-step induction from an arbitrary consistent state
-    _G, "induct", body_hist, _SIG.replace("op:int ", ""),
-    [_RANGES.replace("0 <= op <= 3 and ", ""), "ext and eng == 0 and pre_on",
+    _G, "induct_pol%d" % pol, body_hist, _SIG.replace("op:int ", "").replace("pol:int ", ""),
+    [_RANGES.replace("0 <= op <= 3 and ", "").replace("0 <= pol <= 2 and ", ""), "ext and eng == 0 and pre_on",
      "sync and op2 == 0 and pol2 == 0 and not fresh2 and d1 == 0 and d2 == 0 and d3 == 0"],
-    "op", [0, 1, 2, 3], fixed=dict(steps=1), timeout=900, tiers=("thorough",),
+    "op", [0, 1, 2, 3], fixed=dict(steps=1, pol=pol), timeout=1200, tiers=("thorough",),
     bounds="inductive step: arbitrary consistent pre-state (each of 3 cells absent/NaN/value, on disk; memory "
-           "unloaded or reloaded by a new object) + one operation with an arbitrary dataset (3^3 patterns) and "
-           "any policy preserves memory = disk = policy(ghost, new)")
+           "unloaded or reloaded by a new object) + one operation with an arbitrary dataset (3^3 patterns), "
+           "policy %s, preserves memory = disk = policy(ghost, new)" % [None, True, False][pol])]
 
 ASSUMPTIONS = [
     "xarray / numpy / joblib replaced by MiniXR / MiniNP / MiniJoblib in combo_runner, farming and manage "
